@@ -8,7 +8,8 @@ import importlib
 mods=sys.argv[1].split(',')
 for m in mods: importlib.import_module(m)
 repo=Repo()
-e=Engine(repo,TREE_SCHEMA,api.CONTRACTS,api.SPECS)
+from contracts.schema import TREE_INVARIANTS
+e=Engine(repo,TREE_SCHEMA,api.CONTRACTS,api.SPECS,TREE_INVARIANTS)
 frs=[]
 for k in sys.argv[2:]:
     fr=e.verify_function(k); frs.append(fr)
